@@ -133,6 +133,8 @@ called under it (`tsspFile.LoadIdTimes` → `IsOrder`). -/
 theorem sameClassNesting_expected : sameClassNesting = expectedSameClassNesting := by rfl
 
 def expectedHeldAt : List (String × String) := [
+  ("write: closing flag re-checked @ shard.WriteRows", "shard.mu(R)"),
+  ("write: counted as in flight @ shard.WriteRows", "shard.mu(R)"),
   ("write: apply @ shard.writeRows", "shard.snapshotLock(R)"),
   ("write: append @ shard.writeRows", "shard.snapshotLock(R)"),
   ("switch: wal @ tsstoreImpl.writeSnapshot", "shard.snapshotLock"),
@@ -163,14 +165,16 @@ def expectedHeldAt : List (String × String) := [
 ]
 
 /-- the critical sections the model treats as atomic are bracketed by the lock it names:
-writer under the shared snapshot lock; switch and dropSnapshot under the exclusive snapshot
+writer: the closing flag is checked again under the shared shard lock (which `Close` holds
+exclusively for its whole duration - fix e44a3ed; `write` of the model refuses atomically when
+`closed`), rows and log record under the shared snapshot lock; switch and dropSnapshot under the exclusive snapshot
 lock; publish under the map lock and both list locks (exclusive); takeView under the shared
 snapshot lock, the map lock and both list locks (shared); replace / dropOoo under the list
 lock (exclusive); closeBegin under `shard.mu` and the exclusive snapshot lock; plan under
 `inCompLock`. -/
 theorem heldAt_expected : heldAt = expectedHeldAt := by rfl
 
-def expectedModelledSites : List String := ["shard.writeRows RLock shard.snapshotLock", "shard.writeRows RUnlock shard.snapshotLock", "tsstoreImpl.writeSnapshot Lock shard.snapshotLock", "tsstoreImpl.writeSnapshot Unlock shard.snapshotLock", "tsstoreImpl.writeSnapshot Unlock shard.snapshotLock", "tsstoreImpl.writeSnapshot Unlock shard.snapshotLock", "tsstoreImpl.writeSnapshot Lock shard.snapshotLock", "tsstoreImpl.writeSnapshot Unlock shard.snapshotLock", "tsImmTableImpl.AddBothTSSPFiles RLock MmsTables.mu", "tsImmTableImpl.AddBothTSSPFiles RUnlock MmsTables.mu", "tsImmTableImpl.AddBothTSSPFiles RUnlock MmsTables.mu", "tsImmTableImpl.AddBothTSSPFiles Lock TSSPFiles.lock[order]", "tsImmTableImpl.AddBothTSSPFiles Unlock TSSPFiles.lock[order]", "tsImmTableImpl.AddBothTSSPFiles Lock TSSPFiles.lock[unorder]", "tsImmTableImpl.AddBothTSSPFiles Unlock TSSPFiles.lock[unorder]", "shard.cloneReaders RLock shard.snapshotLock", "shard.cloneReaders RUnlock shard.snapshotLock", "MmsTables.GetBothFilesRef RLock MmsTables.mu", "MmsTables.GetBothFilesRef RUnlock MmsTables.mu", "MmsTables.GetBothFilesRef RLock TSSPFiles.lock[order]", "MmsTables.GetBothFilesRef RUnlock TSSPFiles.lock[order]", "MmsTables.GetBothFilesRef RLock TSSPFiles.lock[unorder]", "MmsTables.GetBothFilesRef RUnlock TSSPFiles.lock[unorder]", "MmsTables.ReplaceFiles RLock MmsTables.mu", "MmsTables.ReplaceFiles RUnlock MmsTables.mu", "MmsTables.ReplaceFiles Lock TSSPFiles.lock", "MmsTables.ReplaceFiles Unlock TSSPFiles.lock", "MmsTables.deleteUnorderedFiles Lock TSSPFiles.lock[unorder]", "MmsTables.deleteUnorderedFiles Unlock TSSPFiles.lock[unorder]", "MmsTables.deleteUnorderedFiles Lock MmsTables.mu", "MmsTables.deleteUnorderedFiles Unlock MmsTables.mu", "shard.Close Lock shard.mu", "shard.Close Unlock shard.mu", "shard.Close Lock shard.snapshotLock", "shard.Close Unlock shard.snapshotLock", "MmsTables.acquire Lock MmsTables.inCompLock", "MmsTables.acquire Unlock MmsTables.inCompLock"]
+def expectedModelledSites : List String := ["shard.WriteRows RLock shard.mu", "shard.WriteRows RUnlock shard.mu", "shard.writeRows RLock shard.snapshotLock", "shard.writeRows RUnlock shard.snapshotLock", "tsstoreImpl.writeSnapshot Lock shard.snapshotLock", "tsstoreImpl.writeSnapshot Unlock shard.snapshotLock", "tsstoreImpl.writeSnapshot Unlock shard.snapshotLock", "tsstoreImpl.writeSnapshot Unlock shard.snapshotLock", "tsstoreImpl.writeSnapshot Lock shard.snapshotLock", "tsstoreImpl.writeSnapshot Unlock shard.snapshotLock", "tsImmTableImpl.AddBothTSSPFiles RLock MmsTables.mu", "tsImmTableImpl.AddBothTSSPFiles RUnlock MmsTables.mu", "tsImmTableImpl.AddBothTSSPFiles RUnlock MmsTables.mu", "tsImmTableImpl.AddBothTSSPFiles Lock TSSPFiles.lock[order]", "tsImmTableImpl.AddBothTSSPFiles Unlock TSSPFiles.lock[order]", "tsImmTableImpl.AddBothTSSPFiles Lock TSSPFiles.lock[unorder]", "tsImmTableImpl.AddBothTSSPFiles Unlock TSSPFiles.lock[unorder]", "shard.cloneReaders RLock shard.snapshotLock", "shard.cloneReaders RUnlock shard.snapshotLock", "MmsTables.GetBothFilesRef RLock MmsTables.mu", "MmsTables.GetBothFilesRef RUnlock MmsTables.mu", "MmsTables.GetBothFilesRef RLock TSSPFiles.lock[order]", "MmsTables.GetBothFilesRef RUnlock TSSPFiles.lock[order]", "MmsTables.GetBothFilesRef RLock TSSPFiles.lock[unorder]", "MmsTables.GetBothFilesRef RUnlock TSSPFiles.lock[unorder]", "MmsTables.ReplaceFiles RLock MmsTables.mu", "MmsTables.ReplaceFiles RUnlock MmsTables.mu", "MmsTables.ReplaceFiles Lock TSSPFiles.lock", "MmsTables.ReplaceFiles Unlock TSSPFiles.lock", "MmsTables.deleteUnorderedFiles Lock TSSPFiles.lock[unorder]", "MmsTables.deleteUnorderedFiles Unlock TSSPFiles.lock[unorder]", "MmsTables.deleteUnorderedFiles Lock MmsTables.mu", "MmsTables.deleteUnorderedFiles Unlock MmsTables.mu", "shard.Close Lock shard.mu", "shard.Close Unlock shard.mu", "shard.Close Lock shard.snapshotLock", "shard.Close Unlock shard.snapshotLock", "MmsTables.acquire Lock MmsTables.inCompLock", "MmsTables.acquire Unlock MmsTables.inCompLock"]
 
 theorem modelledSites_expected : modelledSites = expectedModelledSites := by rfl
 
